@@ -10,7 +10,7 @@ Open Scope Z_scope.
 Definition iValueError := 105.     (* ValueError from an rdata constructor check *)
 Definition iNotModelled := 997.    (* model artefact: wire codec of the generic-syntax branch *)
 
-Inductive enum_kind := KType | KScheme | KCtype | KAlgMn | KAlgNum.
+Inductive enum_kind := KType | KScheme | KCtype | KAlgMn | KAlgNum | KRcode.
 
 Inductive tfield :=
 | FDec (maxv : Z)                          (* get_uint8/16/32/48 *)
@@ -45,8 +45,10 @@ Inductive tfield :=
 | FGw (ipsec : bool)                       (* dns.rdtypes.util.Gateway: IPSECKEY "gateway_type algorithm gateway",
                                               AMTRELAY "relay_type relay" (type <= 127); the form of the last token
                                               depends on the type *)
-| FB64RestE.                               (* IPSECKEY key: concatenate_remaining_identifiers(True) + b64decode, styled
+| FB64RestE                                (* IPSECKEY key: concatenate_remaining_identifiers(True) + b64decode, styled
                                               chunks, may be empty (the blank before it is still printed) *)
+| FMac                                     (* TSIG: "mac_len mac"; base64.b64decode(tok.get_string()), length compared *)
+| FOther.                                  (* TSIG: "other_len [other]"; the data token is read only when other_len > 0 *)
 
 Inductive gwval := GwNone | GwText (t : list Z) | GwName (n : name).
 
@@ -550,7 +552,29 @@ Definition ctype_table : list (list Z * Z) :=
 Definition notify_name : list Z := [78; 79; 84; 73; 70; 89].
 
 Definition enum_max (k : enum_kind) : Z :=
-  match k with KType | KCtype => 65535 | KScheme | KAlgMn | KAlgNum => 255 end.
+  match k with KType | KCtype => 65535 | KScheme | KAlgMn | KAlgNum => 255 | KRcode => 4095 end.
+
+(* dns.rcode.Rcode (members in definition order; BADSIG is an alias of BADVERS = 16) *)
+Definition rcode_table : list (list Z * Z) :=
+  [([78;79;69;82;82;79;82], 0); ([70;79;82;77;69;82;82], 1); ([83;69;82;86;70;65;73;76], 2); ([78;88;68;79;77;65;73;78], 3);
+   ([78;79;84;73;77;80], 4); ([82;69;70;85;83;69;68], 5); ([89;88;68;79;77;65;73;78], 6); ([89;88;82;82;83;69;84], 7);
+   ([78;88;82;82;83;69;84], 8); ([78;79;84;65;85;84;72], 9); ([78;79;84;90;79;78;69], 10); ([68;83;79;84;89;80;69;78;73], 11);
+   ([66;65;68;86;69;82;83], 16); ([66;65;68;83;73;71], 16); ([66;65;68;75;69;89], 17); ([66;65;68;84;73;77;69], 18);
+   ([66;65;68;77;79;68;69], 19); ([66;65;68;78;65;77;69], 20); ([66;65;68;65;76;71], 21); ([66;65;68;84;82;85;78;67], 22);
+   ([66;65;68;67;79;79;75;73;69], 23)].
+
+(* dns.rcode.from_text = Rcode.from_text (dns.enum.IntEnum): upper-cased member name, else a decimal number
+   within 0..4095; UnknownRcode / ValueError are both outside the SyntaxError family *)
+Definition rcode_from_text (t : list Z) : res Z :=
+  let u := map upper_c t in
+  match assoc_text u rcode_table with
+  | Some v => Ok v
+  | None =>
+      if negb (is_nil u) && forallb is_decimal u then
+        let v := dec_value u 0 in
+        if v >? 4095 then Internal iValueError else Ok v
+      else Lib eUnknownRdatatype
+  end.
 
 (* to_text side *)
 Definition enum_print (k : enum_kind) (v : Z) : res (list Z) :=
@@ -560,6 +584,9 @@ Definition enum_print (k : enum_kind) (v : Z) : res (list Z) :=
   | KCtype => Ok (match assoc_value v ctype_table with Some n => n | None => dec v end)   (* CERT _ctype_to_text *)
   | KAlgMn => Ok (match assoc_value v alg_table with Some n => n | None => dec v end)     (* Algorithm.to_text *)
   | KAlgNum => Ok (dec v)                                       (* f"{self.algorithm}" *)
+  | KRcode =>                                                   (* dns.rcode.to_text(value, tsig=True) *)
+      Ok (if v =? 16 then [66;65;68;83;73;71]
+          else match assoc_value v rcode_table with Some n => n | None => dec v end)
   end.
 
 (* from_text side, at token time *)
@@ -579,6 +606,7 @@ Definition enum_parse (k : enum_kind) (t : list Z) : res Z :=
       end
   | KAlgMn => alg_from_text t
   | KAlgNum => alg_from_text t
+  | KRcode => rcode_from_text t
   end.
 
 (* constructor range check *)
@@ -733,6 +761,8 @@ Definition print_field (st : style) (f : tfield) (v : tval) : res (list Z) :=
               end;
       Ok (dec g ++ [32] ++ (if ipsec then dec a ++ [32] else []) ++ t)
   | FB64RestE, VBytes b => Ok (styled_base64ify b (s_b64_chunk st) (s_b64_sep st))
+  | FMac, VBytes b => Ok (dec (zlen b) ++ [32] ++ b64encode b)
+  | FOther, VBytes b => Ok (dec (zlen b) ++ (if is_nil b then [] else 32 :: b64encode b))
   | _, _ => Internal eBadCase
   end.
 
@@ -775,6 +805,10 @@ Definition rest_bytes (decode : list Z -> res (list Z)) (st : tstate) : res (tva
   do d <- decode b;
   Ok (VBytes d, snd hs).
 
+(* base64.b64decode of a str (no .encode()): non-ASCII characters are a ValueError, not skipped *)
+Definition b64decode_str (t : list Z) : res (list Z) :=
+  if forallb (fun c => (0 <=? c) && (c <? 128)) t then b64decode t else Internal iValueError.
+
 (* token-level part of cls.from_text: what is read (and converted) before the constructor runs *)
 Definition parse_field (c : pctx) (f : tfield) (st : tstate) : res (tval * tstate) :=
   match f with
@@ -816,6 +850,18 @@ Definition parse_field (c : pctx) (f : tfield) (st : tstate) : res (tval * tstat
   | FB64RestE =>
       do hs <- concatenate_remaining_identifiers st true;
       do e <- utf8_encode (fst hs); do b <- b64decode e; Ok (VBytes b, snd hs)
+  | FMac =>
+      do ns <- get_uint max16 st 10;
+      do ts <- get_string (snd ns) 0;
+      do b <- b64decode_str (fst ts);
+      if negb (zlen b =? fst ns) then Internal iValueError else Ok (VBytes b, snd ts)
+  | FOther =>
+      do ns <- get_uint max16 st 10;
+      if fst ns >? 0 then
+        do ts <- get_string (snd ns) 0;
+        do b <- b64decode_str (fst ts);
+        if negb (zlen b =? fst ns) then Internal iValueError else Ok (VBytes b, snd ts)
+      else Ok (VBytes [], snd ns)
   | FGw ipsec =>
       do gs <- get_uint max8 st 10;
       do as_ <- (if ipsec then get_uint max8 (snd gs) 10
@@ -955,6 +1001,7 @@ Definition schema_of (rdtype : Z) : option (list tfield) :=
   else if (rdtype =? 104) || (rdtype =? 106) then Some [u16; FFmtHex]               (* NID L64 *)
   else if rdtype =? CH_A then Some [FName; FOct16]                                 (* A in class CH *)
   else if rdtype =? 20 then Some [cstr; FQOpt]                                     (* ISDN *)
+  else if rdtype =? 250 then Some [FNameNoRel; FDec max48; u16; FMac; u16; FEnum KRcode; FOther]   (* TSIG *)
   else if rdtype =? 45 then Some [u8; FGw true; FB64RestE]                         (* IPSECKEY *)
   else if rdtype =? 260 then Some [u8; FDec 1; FGw false]                          (* AMTRELAY *)
   else if rdtype =? 55 then Some [u8; FHexStr; FB64Tok 65535; FNamesRest]          (* HIP (text order) *)
@@ -1054,6 +1101,8 @@ Fixpoint vals_of_obs (fs : list tfield) (os : list obs) : option (list tval) :=
           | FB64Tok _, B b => Some (VBytes b :: r)
           | FB64RestOpt, B b => Some (VBytes b :: r)
           | FB64RestE, B b => Some (VBytes b :: r)
+          | FMac, B b => Some (VBytes b :: r)
+          | FOther, B b => Some (VBytes b :: r)
           | FGw _, L [I g; I a; I 0] => Some (VGw g a GwNone :: r)
           | FGw _, L [I g; I a; B t] => Some (VGw g a (GwText t) :: r)
           | FGw _, L [I g; I a; L l] => match name_of_obs l with Some n => Some (VGw g a (GwName n) :: r) | None => None end
